@@ -136,9 +136,9 @@ Proof. exact xml_mono_main. Qed.
 
 (** whatever the document says: an object decoded where class [c] is declared is an instance
     of [c] or of a subclass; a marker is honoured only if its prefix is bound in scope, the
-    key is in the interface's registry and the registered class is a subclass of the declared
-    one; a marker that is unbound, unknown or names a class that is not a subclass is refused
-    with a validation fault *)
+    key is in the interface's registry and _get_xsi_target accepts the registered class (the
+    declared class or a subclass); a marker that is unbound, unknown or not accepted (an unrelated
+    class, another primitive, another array type) is refused with a validation fault *)
 Theorem C16_xml_marker_sound : forall L C U,
   (forall k sc c nillable e d fs,
      pdec shape_src L C U k sc (TRef c) nillable e = Ok (VObj d fs) -> is_subclass U d c = true)
@@ -156,7 +156,7 @@ Theorem C16_xml_marker_sound : forall L C U,
          | None => true
          | Some key => match reg_find (p_reg C) key with
                        | None => true
-                       | Some t' => negb (xsi_guard U t t')
+                       | Some t' => match xsi_target U (p_tns C) t t' with None => true | Some _ => false end
                        end
          end = true) ->
         pdec shape_src L C U (S k) sc t nillable (XElt ns n atts txt kids) = VFault).
@@ -193,6 +193,22 @@ Theorem C16_hier_marker_sound : forall H U,
         find_cid (fun s => text_eqb (cls_name U s) nm) (get_subclasses (S (length U)) U c) = None ->
         h_dec shape_src H U (S k) (TRef c) (JMap [(nm, inner)]) = VFault).
 Proof. exact hier_sound_main. Qed.
+
+(** XmlDocument._get_xsi_target, regenerated from the source as a decision over five facts about
+    the declared and the registered class, is the decision the model uses ... *)
+Theorem C16_xsi_target_src : forall same_orig sup_array same_key sup_complex sub_of,
+  xsi_target_src same_orig sup_array same_key sup_complex sub_of
+  = xsi_decide same_orig sup_array same_key sup_complex sub_of.
+Proof. intros [|] [|] [|] [|] [|]; reflexivity. Qed.
+
+(** ... and what it lets through is the declared type itself (for Array types only under the
+    same key; the declared customisation is kept) or, where a user class is declared, a user
+    class that is a subclass of it; a primitive or an array slot is never retyped *)
+Theorem C16_xsi_target_spec : forall U tns decl new t, xsi_target U tns decl new = Some t ->
+  (t = decl \/ exists c c', decl = TRef c /\ new = TRef c' /\ t = TRef c' /\ is_subclass U c' c = true)
+  /\ (forall p, decl = TPrim p -> new = TPrim p /\ t = decl)
+  /\ (forall e, decl = TArr e -> exists e', new = TArr e' /\ key_of U tns (TArr e') = key_of U tns (TArr e) /\ t = decl).
+Proof. exact xsi_target_main. Qed.
 
 (** the same with Spyne's Integer / Unicode / Boolean text codecs (C08 through C01/Leaf.v) and
     the registry the interface builds: nothing left to assume about leaves *)
